@@ -373,6 +373,21 @@ def split_rule(ctx, body, paths, al):
             bada.append("the argument is not cut from the line")
             continue
         lo0 = strip_refs(los[0])
+        if len(los) == 1 and isinstance(lo0, tuple) and lo0[0] == "binop" and lo0[1] == "Add":
+            # a hand-computed absolute position: bytes[a + k..] with k found by position() in bytes[a..] is bytes[a..][k..]
+            for a_, b_ in ((lo0[2], lo0[3]), (lo0[3], lo0[2])):
+                b0 = strip_refs(b_)
+                if isinstance(b0, tuple) and b0[0] == "field" and b0[2] == 0 and isinstance(b0[1], tuple) and b0[1][0] == "downcast" and b0[1][2] == "Some" and is_call(strip_refs(b0[1][1]), "Iterator>::position"):
+                    it_ = strip_refs(call_args(strip_refs(b0[1][1]))[0])
+                    while isinstance(it_, tuple) and it_ and it_[0] in ("loc", "refmut", "ref"):
+                        it_ = strip_refs(it_[2] if it_[0] == "loc" and len(it_) > 2 else it_[1])
+                    src_ = strip_refs(call_args(it_)[0]) if is_call(it_, "[T]>::iter") and call_args(it_) else None
+                    cr_ = canon_range(call_args(src_)[0], call_args(src_)[1]) if src_ is not None and is_index_call(src_) else None
+                    if cr_ is not None and cr_[1] == LEN and strip_refs(cr_[0]) == strip_refs(a_) and whole_line(strip_refs(call_args(src_)[0])):
+                        los = [a_, b_]
+                        subjects = [subjects[0], src_]
+                        lo0 = strip_refs(a_)
+                        break
         if len(los) == 1 and isinstance(lo0, tuple) and lo0[0] == "havoc" and len(lo0) > 3:
             # cursor form: starts at sep, +1 per blank byte of bytes[sep..], stops at the first non-blank
             h = lo0[2]
@@ -502,6 +517,18 @@ def run(ctx):
                         src = strip_refs(src[2] if src[0] == "loc" and len(src) > 2 else src[1])
                     if is_call(src, "[T]>::iter") and strip_refs(call_args(src)[0]) == strip_refs(call_args(ix[0])[0]) and canon_range(call_args(ix[0])[0], call_args(ix[0])[1])[1] == LEN:
                         est = True
+                # ... the same with the absolute position computed by hand: x[a + k..] with k FOUND by position() in x[a..]
+                if isinstance(l0, tuple) and l0[0] == "binop" and l0[1] == "Add" and canon_range(call_args(ix[0])[0], call_args(ix[0])[1])[1] == LEN:
+                    for a_, b_ in ((l0[2], l0[3]), (l0[3], l0[2])):
+                        b0 = strip_refs(b_)
+                        if isinstance(b0, tuple) and b0[0] == "field" and b0[2] == 0 and isinstance(b0[1], tuple) and b0[1][0] == "downcast" and b0[1][2] == "Some" and is_call(strip_refs(b0[1][1]), "Iterator>::position"):
+                            src = strip_refs(call_args(strip_refs(b0[1][1]))[0])
+                            while isinstance(src, tuple) and src and src[0] in ("loc", "refmut", "ref"):
+                                src = strip_refs(src[2] if src[0] == "loc" and len(src) > 2 else src[1])
+                            tl = strip_refs(call_args(src)[0]) if is_call(src, "[T]>::iter") and call_args(src) else None
+                            cr_ = canon_range(call_args(tl)[0], call_args(tl)[1]) if tl is not None and is_index_call(tl) else None
+                            if cr_ is not None and cr_[1] == LEN and strip_refs(cr_[0]) == strip_refs(a_) and coll(call_args(tl)[0]) == coll(call_args(ix[0])[0]):
+                                est = True
             # ... or the slice that becomes the argument was itself tested non-empty (Some(rest).filter(|r| !r.is_empty()))
             for c in p.conds():
                 t_, truth_ = c.term, c.fact[1] if c.fact[0] == "eq" and isinstance(c.fact[1], bool) else None
